@@ -238,7 +238,10 @@ def run(ctx, n_random=None, max_w=None, per_wide=None, n_inner=-1, classes=None)
         # ... and cut at a random later length of the quantifier (the swept field stays covered)
         shorter = [n for n in field_b + inner if n < variant[2]]
         if shorter:
-            for kind, bits in sweep_cases(rng, variant, lay, spec, min(max_w, 6), 1):
+            cut = list(sweep_cases(rng, variant, lay, spec, min(max_w, 6), 1))
+            if ctx.quick and len(cut) > 150:
+                cut = rng.sample(cut, 150)
+            for kind, bits in cut:
                 n = rng.choice(shorter)
                 cases.append((kind + '@cut', cc.zero_text_padding(bits, spec)[:n]))
         # variable-length text ending in blanks / '@' at an inner length; empty-string forms
